@@ -104,6 +104,15 @@ CHECKS = {
             "compiled separately and must be accepted/rejected alike. All under ASan+UBSan+LSan.",
             "Trusted: the constant-expression generator (self-checked against Python arithmetic), harness recording.",
             "DESIGN.md section 2, C12"),
+    "C19": ("exploration",
+            "differential oracle across initial arena capacities (hook H1) under ASan, whose realloc always relocates",
+            "The same rule sources are compiled with the default capacity and with capacities from 1 byte upwards, "
+            "including an exact-growth mode in which every allocation that does not fit moves its buffer; compile "
+            "outcome, scan results, saved image bytes and a load of that image must be identical, and ASan turns any "
+            "pointer held across a relocation into a use-after-free report. A 20000-rule set that outgrows the default "
+            "buffers is compared rule by rule with the same rules compiled in groups.",
+            "Trusted: hook H1 (compiler.c/arena.c, guard YARA_VERIF) only changes sizes; ASan's always-moving realloc.",
+            "DESIGN.md section 2, C19"),
 }
 
 NOT_YET = "check not built yet in this round (planned in DESIGN.md section 2); nothing is claimed for it"
